@@ -174,7 +174,10 @@ func Enum(j *job.Job, s *job.Sink) {
 
 // ---- grammar-directed random texts with layout noise (C02 family c/d, C16) ----
 
-type gen struct{ r *rand.Rand }
+type gen struct {
+	r        *rand.Rand
+	maxDepth int // nesting bound of this text (3 usually; one text in eight goes to 8-40)
+}
 
 // longComment is a block comment of one to five lines (LF or CR LF line ends, tabs and
 // multi-byte characters inside); whatever follows it stands on its closing line.
@@ -292,13 +295,31 @@ func (g *gen) stmt(depth int) string {
 	if g.r.Intn(8) == 0 {
 		kw = "pattern"
 	}
+	if kw == "pattern" && depth < 6 && g.r.Intn(2) == 0 {
+		// a pattern with a block of string-valued substatements (error-message, description)
+		s := kw + g.ws() + g.arg(true) + g.optws() + "{"
+		for n := 1 + g.r.Intn(2); n > 0; n-- {
+			s += g.optws() + []string{"error-message", "description", "x:e"}[g.r.Intn(3)] + g.ws() + g.dq(false) + g.optws() + ";"
+		}
+		return s + g.optws() + "}"
+	}
 	s := kw
 	if g.r.Intn(4) > 0 {
 		s += g.ws() + g.arg(kw == "pattern")
 	}
-	if depth < 3 && g.r.Intn(3) == 0 {
+	md := g.maxDepth
+	if md == 0 {
+		md = 3
+	}
+	if depth < md && (g.r.Intn(3) == 0 || (md > 3 && g.r.Intn(4) > 0)) {
 		s += g.optws() + "{"
 		n := g.r.Intn(3)
+		if md > 3 && n == 0 {
+			n = 1
+		}
+		if md > 3 && depth > 2 {
+			n = 1 // deep texts are narrow, or they explode
+		}
 		for i := 0; i < n; i++ {
 			s += g.optws() + g.stmt(depth+1)
 		}
@@ -323,15 +344,30 @@ func (g *gen) fault(t string) (string, string) {
 	switch g.r.Intn(8) {
 	case 0:
 		return t + "}" + g.optws(), "extra-rbrace"
-	case 1:
-		if ix := strings.Index(t, "\""); ix >= 0 && !strings.Contains(t, "pattern") {
-			return t[:ix+1] + "\\q" + t[ix+1:], "bad-escape"
+	case 1, 2:
+		// an unknown escape behind a randomly chosen double quote. Inside the argument of a
+		// pattern statement it is legal (and kept verbatim), everywhere else - including the
+		// substatements of a pattern - it is the fault; the reference reader knows which.
+		var qs []int
+		for i := 0; i < len(t); i++ {
+			if t[i] == '"' {
+				qs = append(qs, i)
+			}
 		}
-	case 2:
-		if ix := strings.Index(t, "\""); ix >= 0 && !strings.Contains(t, "pattern") {
-			return t[:ix+1] + "\\\n" + t[ix+1:], "bad-escape-linebreak"
+		if len(qs) > 0 {
+			ix := qs[g.r.Intn(len(qs))]
+			esc := []string{"\\q", "\\d", "\\\n", "\\ ", "\\'"}[g.r.Intn(5)]
+			kind := "bad-escape"
+			if esc == "\\\n" {
+				kind = "bad-escape-linebreak"
+			}
+			return t[:ix+1] + esc + t[ix+1:], kind
 		}
 	case 3:
+		if g.r.Intn(2) == 0 {
+			// the offending token is a string made of several pieces: it starts at its first piece
+			return g.optws() + "\"k\"" + g.optws() + "+" + g.optws() + "'w'" + []string{"", " + \"z\""}[g.r.Intn(2)] + " x;" + t, "quoted-keyword"
+		}
 		return g.optws() + "\"kw\" x;" + t, "quoted-keyword"
 	case 4:
 		return t + "/* never closed ", "unterminated-comment"
@@ -341,6 +377,9 @@ func (g *gen) fault(t string) (string, string) {
 		return t + "z 'never closed", "unterminated-squote"
 	case 7:
 		if ix := strings.LastIndex(t, ";"); ix >= 0 {
+			if g.r.Intn(2) == 0 {
+				return t[:ix] + " 'q'" + g.optws() + "+" + g.optws() + "\"r\" zz;" + t[ix+1:], "missing-semi"
+			}
 			return t[:ix] + " 'q' zz;" + t[ix+1:], "missing-semi"
 		}
 	}
@@ -354,6 +393,10 @@ func Random(j *job.Job, s *job.Sink) {
 	monitor := j.Property + ".random"
 	for i := j.Start; i < j.Start+j.Count; i++ {
 		g := &gen{r: prng.For(j.Seed, j.Property, j.Family, i)}
+		if g.r.Intn(8) == 0 {
+			g.maxDepth = 8 + g.r.Intn(33)
+			s.Count("deeply_nested_texts", 1)
+		}
 		t := g.text()
 		if i%256 == 0 {
 			s.Current(i, map[string]any{"text": t})
